@@ -242,8 +242,9 @@ Proof. exact (conj unit_interval_hyps_satisfiable kl_hyps_satisfiable). Qed.
 Print Assumptions C10_hypotheses_satisfiable.
 
 Theorem C10_nll_hypotheses_satisfiable :
-  let psi := fun _ : bits => ((1, 0) : R * R) in
-  let st := PureTab psi in let pr := fun _ : bits => 1 in
-  forall bs, In bs [([LZ], [false]); ([LZ], [true])] -> sample_ok [] st pr 2 bs.
+  let st := PureTab psi_ex in let pr := fun _ : bits => 1 in
+  let samples := [([LX], [false]); ([LZ], [true]); ([LX], [true])] in
+  (forall bs, In bs samples -> sample_ok [] st pr 2 bs) /\
+  (forall bs, In bs samples -> count_basis [[LZ]; [LX]] (fst bs) = 1%nat).
 Proof. exact nll_hyps_satisfiable. Qed.
 Print Assumptions C10_nll_hypotheses_satisfiable.
